@@ -121,6 +121,10 @@ class FileResolver:
             # Yield files matching include patterns (applying gitignore + tool ignore)
             for filename in filenames:
                 filepath = current / filename
+                # Like directories, files are not reached through symbolic links during
+                # traversal (a link may point outside the tree being formatted).
+                if filepath.is_symlink():
+                    continue
                 if not self._include_spec.match_file(filename):
                     continue
                 if self._exceeds_max_size(filepath):
